@@ -720,7 +720,7 @@ def check_formals_vs_spec(ctx, res, rule, tag):
                      "%s statements are printed / keyed with arguments in the wrong position or under the wrong role, identically in writer and reader" % row["provn"])
         pt = ctx.prov_type_of_class(cls)
         if pt != t:
-            res.fail(rule.id, "%s::%s::type-constant" % (tag, tname), ctx.loc(cls, ctx.p.cls(cls).node), "%s._prov_type is %s, registered under %s" % (cls, getattr(pt, "s", pt), t.s))
+            res.fail(rule.id, "%s::%s::type-constant" % (tag, tname), ctx.loc(cls, ctx.p.cls(cls).node), "%s.%s is %s, registered under %s" % (cls, ctx.type_field(), getattr(pt, "s", pt), t.s))
 
 
 @rule("C06", "C06.R2", "formal arguments of each record class are the grammar's arguments, in the grammar's order", 18,
